@@ -83,7 +83,7 @@ def requiredCoverage : List (String × String × String × List String) := [
   -- operations of the quota strategies must be atomic under the state's mutex:
   ("lunarcontext.memoryState", "contextMemory", "mutex",
      ["AtomicIncWindow", "AtomicWindowReset", "AtomicWindowResetIn", "AtomicSAddWithMaxValuesAllowed",
-      "AtomicIncr", "AtomicDecrBy", "SRem"]),
+      "AtomicIncr", "AtomicDecrBy", "SRem", "SMembers", "SCard"]),
   -- get-or-create of the per-key state/queue must be ONE critical section (look up, create, store):
   ("limit.RateLimitState", "groupsStateByLimiter", "mutex", ["getLimiterState"]),
   ("remedies.StrategyBasedQueuePlugin", "queues", "queuesMutex", ["OnRequest"]),
